@@ -137,6 +137,37 @@ pub trait ByPin: HasSnap {
     }
 }
 
+// by-value and Rc receivers whose calls resolve to a registered real function (C16)
+
+#[unimock(api = ByValUMock, unmock_with = [real_vu])]
+pub trait ByValU {
+    fn vu(self, x: u8) -> u64;
+}
+
+pub fn real_vu(u: Unimock, x: u8) -> u64 {
+    run_prog(ProgKind::Real(M::Vu), x, 0, &mut ref_port(&u))
+}
+
+#[unimock(api = ByRcUMock, unmock_with = [real_rcu])]
+pub trait ByRcU {
+    fn rcu(self: Rc<Self>, x: u8) -> u64;
+}
+
+pub fn real_rcu(u: Rc<Unimock>, x: u8) -> u64 {
+    run_prog(ProgKind::Real(M::RcU), x, 0, &mut ref_port(&u))
+}
+
+// a provided method whose body uses the Debug and Display supertraits of `Self` (both are
+// mirrored by unimock::mock::core::fmt, so inside the delegation helper they must be evaluated by
+// the same mock, each by its own entry point)
+#[cfg(feature = "stdworld")]
+#[unimock(api = FmtTMock)]
+pub trait FmtT: std::fmt::Debug + std::fmt::Display {
+    fn show(&self, x: u8) -> String {
+        format!("{x}:{:?}|{}", self, self)
+    }
+}
+
 // ---------------------------------------------------------------------------------------------
 // explicit-parameter unmock form (arguments deliberately listed in swapped order)
 
@@ -248,6 +279,10 @@ pub trait Lend {
     fn lend_clone(&self, x: u8) -> &Unimock;
     /// provided: lends through the default-impl delegation helper
     fn lend_via(&self, x: u8) -> &ValA {
+        self.lend_a(x)
+    }
+    /// provided, exclusive receiver: the helper is reached through `AsMut`
+    fn lend_via_mut(&mut self, x: u8) -> &ValA {
         self.lend_a(x)
     }
 }
@@ -392,12 +427,17 @@ pub fn type_ids() -> &'static Vec<(TypeId, M)> {
             (TypeId::of::<SkipMock::s1>(), M::S1),
             (TypeId::of::<SkipMock::s2>(), M::S2),
             (TypeId::of::<DbgTMock::d0>(), M::D0),
+            (TypeId::of::<ByValUMock::vu>(), M::Vu),
+            (TypeId::of::<ByRcUMock::rcu>(), M::RcU),
+            #[cfg(feature = "stdworld")]
+            (TypeId::of::<FmtTMock::show>(), M::Show),
             (TypeId::of::<LendMock::lend_a>(), M::LendA),
             (TypeId::of::<LendMock::lend_b>(), M::LendB),
             (TypeId::of::<LendMock::lend_mut>(), M::LendMut),
             (TypeId::of::<LendMock::lent>(), M::Lent),
             (TypeId::of::<LendMock::lend_clone>(), M::LendClone),
             (TypeId::of::<LendMock::lend_via>(), M::LendVia),
+            (TypeId::of::<LendMock::lend_via_mut>(), M::LendViaMut),
             (TypeId::of::<OwnMock::own_single>(), M::OwnSingle),
             (TypeId::of::<OwnMock::own_multi>(), M::OwnMulti),
             (TypeId::of::<OwnMock::own_opt>(), M::OwnOpt),
